@@ -424,6 +424,54 @@ def binary_roundtrip(run, fgd: Any, engine: str, case: Any) -> bool:
     except Exception as exc:
         run.violation(f'serialise raised {type(exc).__name__}: {exc}', case=case, engine=engine, key='serialise-raises')
         return False
+    # serialise() is a writer: the FGD it was given is unchanged afterwards, and writing it again gives the same bytes
+    d_in = G.first_diff(before, G.snap_fgd(fgd))
+    if d_in is not None or set(G.snap_fgd(fgd)) != set(before):
+        run.violation(f'serialise() changed the FGD it was given ({sorted(set(before) ^ set(G.snap_fgd(fgd)))[:4] or d_in[0]})', case=case, engine=engine,
+                      key='serialise-mutates-input')
+        return False
+    try:
+        buf_again = io.BytesIO()
+        with quiet_stdout(), warnings.catch_warnings():
+            warnings.simplefilter('ignore')
+            E.serialise(fgd, buf_again)
+        if buf_again.getvalue() != buf.getvalue():
+            run.violation('serialising the same FGD twice gives different bytes', case=case, engine=engine, key='serialise-mutates-input')
+    except Exception as exc:
+        run.violation(f'the second serialise() of the same FGD raised {type(exc).__name__}: {exc}', case=case, engine=engine, key='serialise-mutates-input')
+        return False
+    run.count('serialise_twice')
+    # a definition the format cannot carry - a member whose only variant is tagged - is refused, or (should the format ever
+    # learn tags) comes back with its tags: it is never written as if it were untagged
+    for ent in fgd:
+        members = [(coll, nm) for coll in (ent.keyvalues, ent.inputs, ent.outputs) for nm, tm in coll.items() if list(tm) == [frozenset()]]
+        if ent.classname.casefold() == '_cbaseentity_' or not members:
+            continue
+        coll, nm = members[len(before) % len(members)]
+        plain = coll[nm]
+        coll[nm] = {frozenset({'HL2'}): plain[frozenset()]}
+        try:
+            tb = io.BytesIO()
+            with quiet_stdout(), warnings.catch_warnings():
+                warnings.simplefilter('ignore')
+                E.serialise(fgd, tb)
+        except ValueError:
+            run.count('tagged_member_refused')
+        except Exception as exc:
+            run.violation(f'serialise() of a tagged member raised {type(exc).__name__}: {exc} (expected ValueError)', case=case, engine=engine,
+                          key='binary-tagged-member')
+        else:
+            try:
+                back_t = E.unserialise(io.BytesIO(tb.getvalue())).get_fgd()
+                got_tags = [sorted(t) for t in getattr(back_t[ent.classname], 'keyvalues' if coll is ent.keyvalues else 'inputs' if coll is ent.inputs else 'outputs')[nm]]
+            except Exception as exc:
+                got_tags = [f'<{type(exc).__name__}>']
+            if got_tags != [['HL2']]:
+                run.violation(f'serialise() accepted {ent.classname}.{nm} whose only variant is tagged [HL2]; it reads back with tags {got_tags}',
+                              case=case, engine=engine, key='binary-tagged-member')
+        finally:
+            coll[nm] = plain
+        break
     try:
         db = E.unserialise(io.BytesIO(buf.getvalue()))
         back = db.get_fgd()
@@ -818,7 +866,7 @@ def main(run, shard=(0, 1)) -> None:
         if cnt:
             run.count('reach:' + label_, cnt)
     run.require(*['reach:' + label_ for label_ in probe.counts])
-    run.require('spawnflag_names_with_leading_blanks', 'exports', 'parses', 'file_form_exports', 'fgd_level_sections_compared', 'visgroup_trees_checked_against_export', 'engine_db_shape_checks', 'returned_definitions_edited', 'entities_compared', 'second_exports', 'serialise_calls', 'unserialise_calls',
+    run.require('spawnflag_names_with_leading_blanks', 'exports', 'parses', 'file_form_exports', 'fgd_level_sections_compared', 'visgroup_trees_checked_against_export', 'engine_db_shape_checks', 'returned_definitions_edited', 'serialise_twice', 'tagged_member_refused', 'entities_compared', 'second_exports', 'serialise_calls', 'unserialise_calls',
                 'lazy_queries', 'dbase_roundtrips', 'binary_dbase_roundtrips', 'long_strings', 'empty_display_names',
                 'tagged_duplicate_keys', 'aliases', 'texts_with_plus_split', 'binary_entities_compared')
 
